@@ -2,7 +2,7 @@
 from checks import actors_common as ac
 from checks import tank_common as tc
 
-THEOREMS = ["Poupool.C04.too_low_chain", "Poupool.C04.fill_limit", "Poupool.C04.config_valid", "Poupool.C04.latency_bound", "Poupool.C04.poll_periods",
+THEOREMS = ["Poupool.C04.too_low_chain", "Poupool.C04.dead_sensor_stops_the_system", "Poupool.C04.fill_limit", "Poupool.C04.config_valid", "Poupool.C04.latency_bound", "Poupool.C04.poll_periods",
             "Poupool.C01.filtration_halt_accepted_everywhere", "Poupool.C01.filtration_halt_lands_in_halt", "Poupool.C08.tank_timers", "Poupool.C01.filtration_halt"]
 TIMING = ['Poupool.Timing.tank_limit_phases', 'Poupool.Timing.tank_polls']
 MODULE = "Poupool.Properties.C04"
